@@ -54,6 +54,10 @@ type (
 	}
 )
 
+// callMaxValues is the most values reflect.FuncOf supports (it panics beyond that), which bounds the number of args
+// or results that the (reflect.MakeFunc based) CallArgs, CallResults, and CallResultsSlice options may pass
+const callMaxValues = 128
+
 // NewCallable initialises a new Callable from fn, which must be a non-nil function, but is otherwise unconstrained,
 // note a panic will occur if fn is not a function, or is a function but isn't non-nil
 func NewCallable(fn interface{}) Callable {
@@ -95,6 +99,9 @@ func CallArgs(args ...interface{}) CallOption {
 		in, err := resolveArgs(config.this, typesArgs(args))
 		if err != nil {
 			return fmt.Errorf(`bigbuff.CallArgs %s`, err)
+		}
+		if len(in) > callMaxValues {
+			return fmt.Errorf(`bigbuff.CallArgs args error: too many values: %d > %d`, len(in), callMaxValues)
 		}
 		config.args = reflect.MakeFunc(
 			reflect.FuncOf(nil, in, false),
@@ -138,6 +145,9 @@ func CallResults(results ...interface{}) CallOption {
 				return fmt.Errorf(`bigbuff.CallResults results[%d] error: %v not assignable to %v`, i, out, t)
 			}
 		}
+		if len(out) > callMaxValues {
+			return fmt.Errorf(`bigbuff.CallResults results error: too many values: %d > %d`, len(out), callMaxValues)
+		}
 		config.results = reflect.MakeFunc(
 			reflect.FuncOf(out, nil, false),
 			func(args []reflect.Value) []reflect.Value {
@@ -173,6 +183,9 @@ func CallResultsSlice(target interface{}) CallOption {
 				}
 				out[i] = elem
 			}
+		}
+		if len(out) > callMaxValues {
+			return fmt.Errorf(`bigbuff.CallResultsSlice results error: too many values: %d > %d`, len(out), callMaxValues)
 		}
 		config.results = reflect.MakeFunc(
 			reflect.FuncOf(out, nil, false),
